@@ -594,6 +594,45 @@ func (p *prog) checkListing(op, actorKey string) {
 			p.viol("list-objects:internal-name-visible", map[string]any{"after": op, "common_prefix": cp.Prefix})
 		}
 	}
+	// a listing that names the bookkeeping directory in its prefix shows nothing either
+	if len(p.live()) > 0 {
+		for _, pre := range []string{".sgwtmp/", ".sgwtmp/multipart/", ".sgwtmp/multipart"} {
+			for _, q := range []string{"list-type=2&" + s3c.Q("prefix", pre), s3c.Q("prefix", pre), "list-type=2&" + s3c.Q("prefix", pre, "delimiter", "/")} {
+				lr := p.req("list-objects-internal-prefix("+op+")", true, &s3c.Req{Method: "GET", Path: s3c.BucketPath(p.bucket), Query: q})
+				if lr.Err != nil {
+					return
+				}
+				if !lr.OK() {
+					continue
+				}
+				if ir, err := s3c.ParseList(lr.Body); err == nil && len(ir.Contents)+len(ir.CommonPrefixes) > 0 && !p.reportedInternal {
+					first := ""
+					if len(ir.Contents) > 0 {
+						first = ir.Contents[0].Key
+					} else {
+						first = ir.CommonPrefixes[0].Prefix
+					}
+					p.viol("list-objects:parts-of-uploads-in-progress-listed-under-internal-prefix", map[string]any{"after": op, "query": q, "entries": len(ir.Contents), "common_prefixes": len(ir.CommonPrefixes), "first": first})
+					p.reportedInternal = true
+				}
+			}
+		}
+		// and a key that has an upload in progress but no object is no object for HEAD either, whatever part is asked for
+		for _, u := range p.live() {
+			if p.objects[u.key] != nil || len(u.parts) == 0 || p.reportedHeadPart {
+				continue
+			}
+			hr := p.req("head-object-part("+op+")", true, &s3c.Req{Method: "HEAD", Path: s3c.ObjPath(p.bucket, u.key), Query: s3c.Q("partNumber", fmt.Sprint(u.numbers()[0]))})
+			if hr.Err != nil {
+				return
+			}
+			if hr.OK() {
+				p.viol("head-object:part-of-an-upload-in-progress-answered-as-object", map[string]any{"after": op, "key": u.key, "part": u.numbers()[0], "answer": hr.String(), "etag": hr.Header.Get("Etag"), "content_length": hr.Header.Get("Content-Length")})
+				p.reportedHeadPart = true
+			}
+			break
+		}
+	}
 	for k, o := range p.objects {
 		if o != nil && !seen[k] && !o.reported["missing"] {
 			sig := "list-objects:missing-key"
